@@ -18,7 +18,9 @@ const piR = math.Pi * sphere.R
 func tolDist(d float64) float64 { return math.Max(1e-3, 1e-6*math.Abs(d)) }
 
 func geoLats(thorough bool) []float64 {
-	l := []float64{-90, -89.999999, -89.999, -60, -1e-9, 0, 1e-9, 33, 60, 89.999, 89.999999, 90}
+	l := []float64{-90, -89.999999, -89.999, -60, -1e-9, 0, 1e-9, 33, 60, 89.999, 89.999999, 90,
+		// millimetres from a pole
+		90 - 1e-8, 90 - 2.5e-8, 90 - 4e-8, -90 + 3e-8, -90 + 5e-8, -90 + 1e-7}
 	if thorough {
 		l = append(l, -89.99999999, -89.9, -75, -45, -30, -10, 10, 30, 45, 75, 85, 89.9, 89.99999999, 1e-300)
 	}
